@@ -162,12 +162,48 @@ def rule_revisit(rep):
             "(heads still waiting for the actor)",
             node=f.node,
         )
+        # nothing else narrows the set between its definition and the revisit loop
+        other = []
+        for st in walk_no_nested(f.node):
+            if isinstance(st, (ast.Assign, ast.AugAssign)):
+                tg = st.targets if isinstance(st, ast.Assign) else [st.target]
+                if any(is_name(x, "to_revisit") for x in tg) and not unparse(st).startswith("to_revisit = self._states_traversed["):
+                    other.append(st)
+            elif isinstance(st, ast.Call) and isinstance(st.func, ast.Attribute) and is_name(st.func.value, "to_revisit") \
+                    and st.func.attr in ("discard", "remove", "pop", "clear", "difference_update", "intersection_update",
+                                         "symmetric_difference_update", "add", "update"):
+                other.append(st)
         r.check(
-            "if created and state.state_id in self._states_traversed:" in t,
-            "revisit whenever the state was traversed",
+            not other,
+            "the revisit set is used as computed",
+            "GLRParser._reduce:revisit-set-narrowed",
+            f"`{unparse(other[0])[:80] if other else ''}` changes the set of heads to revisit after it was computed: a "
+            "processed head that traversed the state is not revisited through the new link (derivations are lost on "
+            "same-frontier cycles)",
+            node=other[0] if other else None,
+        )
+        defs = [
+            n for n in g.nodes if n.kind == "stmt" and isinstance(n.ast, ast.Assign)
+            and any(is_name(x, "to_revisit") for x in n.ast.targets)
+        ]
+        r.need(len(defs) == 1, "_reduce: definition of to_revisit not found")
+        dbg = lambda e: unparse(e) in ("self.debug", "debug", "self.debug_trace", "self.debug and self.debug_trace")  # noqa: E731
+        guard = g.dominating_tests(defs[0], skip=dbg)
+        want = {
+            ("self.dynamic_filter", None), ("active_head", "T"), ("created", "T"),
+            ("state.state_id in self._states_traversed", "T"),
+        }
+        # the dynamic-filter early return dominates everything below it in one of two ways; ignore it
+        guard = {(a, b) for a, b in guard if not a.startswith(("self.dynamic_filter", "self._call_dynamic_filter", "not self._call_dynamic_filter"))}
+        want = {(a, b) for a, b in want if b is not None}
+        r.check(
+            guard == want,
+            "revisit whenever a link was created under an existing head whose state was traversed",
             "GLRParser._reduce:revisit-guard",
-            "the revisit guard changed",
-            node=f.node,
+            f"the heads to revisit are computed under the guard {sorted(guard)}; needed exactly {sorted(want)} "
+            "(any further condition, e.g. the error-reporting mode, leaves reductions of processed heads undone: "
+            "derivations, or expected terminals in an error report, are lost)",
+            node=defs[0].ast,
         )
         r.check(
             re.search(r"for r_head_state in to_revisit:\s+r_head = self\._active_heads\[r_head_state\]\s+for action in \[a for a in r_head\.state\.actions\.get\(head\.token_ahead\.symbol, \[\]\) if a\.action == REDUCE\]:", t) is not None,
@@ -222,6 +258,60 @@ def rule_revisit(rep):
             "GLRParser.parse:traversed-reset",
             "the traversed-states map is not reset per sub-frontier",
             node=p.node,
+        )
+
+
+def rule_link_key(rep):
+    with rep.rule(
+        "R02.link-key",
+        "links of a head are keyed by the identity of the root node: GSSNode.id is an injective "
+        "function of (frontier, state id)",
+    ) as r:
+        repo = rep.repo
+        init = repo.func("parglare.glr.GSSNode.__init__")
+        st = next(
+            (x for x in walk_no_nested(init.node) if isinstance(x, ast.Assign) and any(is_self_attr(t, "id") for t in x.targets)),
+            None,
+        )
+        r.need(st is not None, "GSSNode.__init__: self.id assignment not found")
+        v = st.value
+        ok = False
+        why = unparse(v)
+        if isinstance(v, ast.Tuple):
+            parts = [unparse(e) for e in v.elts]
+            ok = sorted(parts) == ["frontier", "state.state_id"]
+        elif isinstance(v, ast.JoinedStr):
+            holes = [unparse(x.value) for x in v.values if isinstance(x, ast.FormattedValue)]
+            ok = sorted(holes) == ["frontier", "state.state_id"]
+            # two integers: a non-digit separator between them is needed
+            for a, b, c in zip(v.values, v.values[1:], v.values[2:]):
+                pass
+            seq = v.values
+            for i, x in enumerate(seq):
+                if isinstance(x, ast.FormattedValue) and i + 1 < len(seq) and isinstance(seq[i + 1], ast.FormattedValue):
+                    ok = False
+                    why += " (two numbers without a separator)"
+            for x in seq:
+                if isinstance(x, ast.Constant) and isinstance(x.value, str) and x.value and x.value.isdigit():
+                    ok = False
+                    why += " (digits as separator)"
+        r.check(
+            ok,
+            "GSSNode.id = frontier and state id, separated",
+            "GSSNode.__init__:id",
+            f"GSSNode.id is built as `{why}`: different (frontier, state) pairs get the same id (e.g. (1, 13) and "
+            "(11, 3)); create_link then merges a new link into the link of another root node, losing one "
+            "derivation and inventing another",
+            node=st,
+        )
+        cl = repo.func("parglare.glr.GSSNode.create_link")
+        t = unparse(cl.node)
+        r.check(
+            "existing_parent = self.parents.get(parent.root.id)" in t and "self.parents[parent.root.id] = parent" in t,
+            "links are looked up and stored under the root node's id",
+            "GSSNode.create_link:key",
+            "create_link no longer reads and writes the link table under parent.root.id",
+            node=cl.node,
         )
 
 
@@ -345,6 +435,7 @@ def check(rep):
     )
     rule_link_no_drop(rep)
     rule_revisit(rep)
+    rule_link_key(rep)
     rule_all_parents(rep)
     from .C17 import rule_forest_root, rule_accumulate
 
